@@ -38,7 +38,7 @@ ANCHORS = [
 ]
 REQUIRED_ANCHORS = ANCHORS
 REQUIRED = ["transitions", "bfs_states", "random_history_ops", "query_battery_runs", "absent_key_queries", "remove_atom_with_descriptors", "op:relabel_atoms", "op:remove_atom", "op:set_atom_stereo_change"]
-CASE_TIMEOUT = 900
+CASE_TIMEOUT = 1600
 U = (0, 1, 2, 3)
 ABSENT = 7
 
@@ -222,10 +222,23 @@ def gen_cases(ctx):
     n = ctx.n(200, 5000)
     for i in range(n):
         yield {"kind": "random", "cls": CLASS_NAMES[(i + ctx.shard) % 4], "hseed": rng.randrange(1 << 30), "length": rng.choice([200, 200, 400, 800] if ctx.tier == "quick" else [200, 500, 1000, 2000])}
-    # (c) explicit histories (replays / witnesses)
+    # (c) thorough only: the repository's own tests as an ambient workload under the monitors
+    if ctx.tier == "thorough" and ctx.shard == 0:
+        yield {"kind": "ambient"}
 
 
 def check_case(ctx, case):
+    if case["kind"] == "ambient":
+        from ..instrument import run_ambient
+
+        ev, viol, tail = run_ambient("C09/")
+        for k in ("outermost", "mutator_checks", "query_checks"):
+            ctx.count(f"ambient:{k}", ev.get(k, 0))
+        ctx.case(("ambient",), ev.get("mutator_checks", 0) > 0)
+        for v in viol[:20]:
+            ctx.violate(v["key"], "repository test-suite under the ambient monitors: " + v["what"], case)
+        ctx.sample({"kind": "ambient", "events": ev, "pytest": tail}, cap=3)
+        return
     if case["kind"] == "bfs":
         return bfs(ctx, case)
     if case["kind"] == "history":
